@@ -663,6 +663,10 @@ impl<'a> VisitMut for Rw<'a> {
                 }
             }
         }
+        // `Struct { a, ..rest }`: the rebuilt field list needs its trailing comma in front of `..rest`
+        if st.rest.is_some() && !keep.is_empty() && !keep.trailing_punct() {
+            keep.push_punct(Default::default());
+        }
         st.fields = keep;
         visit_mut::visit_expr_struct_mut(self, st);
     }
@@ -1279,7 +1283,13 @@ struct KeepArms {
 impl VisitMut for KeepArms {
     fn visit_expr_match_mut(&mut self, m: &mut ExprMatch) {
         let hit = |p: &Pat, keep: &Vec<String>| {
-            let t = tnorm(p);
+            // (R18 runs before the path shortening A3: `super::ActionResult::Retract(..)` / `crate::x::ActionResult::Retract` match the
+            // prefix `ActionResult::Retract` too)
+            let mut pc = p.clone();
+            let mut ps = PathShort { n: 0 };
+            ps.visit_pat_mut(&mut pc);
+            let t0 = tnorm(&pc);
+            let t = t0.trim_start_matches("super::").trim_start_matches("self::").to_string();
             keep.iter().any(|k| {
                 let k = norm(k);
                 t.starts_with(&k) && !t[k.len()..].chars().next().map(|c| c.is_alphanumeric() || c == '_').unwrap_or(false)
@@ -2126,6 +2136,15 @@ fn do_fn(items: &[Item], req: &ItemReq, feats: &[String]) -> std::result::Result
     if let Some(e) = rp.err.take() {
         return Err(e);
     }
+    // R18 runs BEFORE R23: a helper called only from an abstracted arm must not count as inlined
+    if !req.keeparms.is_empty() {
+        let mut ka = KeepArms { keep: req.keeparms.clone(), havoc: req.havoc.clone(), n: 0 };
+        ka.visit_block_mut(&mut block);
+        if ka.n == 0 {
+            return Err("keeparms: no match arm was abstracted (source changed?)".into());
+        }
+        counts.insert("R18.arms_abstracted".to_string(), ka.n);
+    }
     // R23: private helpers of the same impl / file that the unit does not provide are inlined, so that a helper extracted by a
     // refactoring leaves the caller's statements where contracts, anchors and loop ordinals expect them
     let mut inlined = 0;
@@ -2262,14 +2281,6 @@ fn do_fn(items: &[Item], req: &ItemReq, feats: &[String]) -> std::result::Result
     ps.visit_signature_mut(&mut sig);
     if ps.n > 0 {
         rw.counts.insert("A3.crate_paths".to_string(), ps.n);
-    }
-    if !req.keeparms.is_empty() {
-        let mut ka = KeepArms { keep: req.keeparms.clone(), havoc: req.havoc.clone(), n: 0 };
-        ka.visit_block_mut(&mut block);
-        if ka.n == 0 {
-            return Err("keeparms: no match arm was abstracted (source changed?)".into());
-        }
-        rw.counts.insert("R18.arms_abstracted".to_string(), ka.n);
     }
     let mut mk = Marker { do_loops: true, next_loop: 0, kinds: vec![], anchors: vec![], found: BTreeMap::new(), depth: 0, placed_depth: BTreeMap::new() };
     mk.visit_block_mut(&mut block);
